@@ -102,6 +102,36 @@ def declaration_corner_probe(ctx):
                     break
 
 
+def special_key_declaration_probe(ctx):
+    """C10: a rejected declaration call on a schema that CONTAINS a dict with special keys (every DeclarationError message
+    embeds the repr of the schema built so far): re-declarations and wrongly typed arguments, directly on the dict and on a
+    list / union containing it"""
+    from .hostile import SPECIAL_KEYS
+    from d42 import optional
+    ctx.count("special_key_declaration_probes")
+    for k in SPECIAL_KEYS:
+        try:
+            d = schema.dict({k: schema.int, optional("o"): schema.str})
+        except DeclarationError:
+            continue
+        except Exception as e:  # noqa: BLE001
+            ctx.violation("a declaration call raised %s (not DeclarationError)" % type(e).__name__, chain="schema.dict({key: schema.int})",
+                          key=repr(k), exception=repr(e)[:200])
+            continue
+        for chain, f in (("d({})", lambda: d({})), ("d(42)", lambda: d(42)), ("schema.list(d)(d)", lambda: schema.list(d)(d)),
+                         ("schema.list(d).len('x')", lambda: schema.list(d).len("x")), ("schema.list([d]).len(1).len(2)", lambda: schema.list([d]).len(1).len(2)),
+                         ("schema.any(d)(schema.int)", lambda: schema.any(d)(schema.int)), ("schema.any(d, schema.int)(5)", lambda: schema.any(d, schema.int)(5)),
+                         ("d + 5", lambda: d + 5), ("schema.dict({'in': d})({})", lambda: schema.dict({"in": d})({}))):
+            try:
+                f()
+            except (DeclarationError, TypeError) as e:
+                if isinstance(e, TypeError) and chain != "d + 5":
+                    ctx.violation("a declaration call raised TypeError (not DeclarationError)", chain=chain, key=repr(k), exception=repr(e)[:200])
+            except Exception as e:  # noqa: BLE001
+                ctx.violation("a declaration call raised %s (not DeclarationError)" % type(e).__name__, chain=chain, key=repr(k),
+                              exception=repr(e)[:200])
+
+
 def _deep_list(n):
     v = []
     for _ in range(n):
